@@ -50,6 +50,12 @@ Target(s, e, n) == LET TT == Targets(s, e)
 Count(t, n) == IF t.agg = "ARRAY" THEN t.hi - t.lo + 1
                ELSE LET want == t.lo + (n % 3) IN IF t.hi # -1 /\ want > t.hi THEN t.hi ELSE want
 
+RECURSIVE BaseKindOf(_, _)
+BaseKindOf(s, b) == IF b \in Simple THEN b
+                    ELSE IF IsEnt(s, b) THEN "entity"
+                    ELSE LET ty == TypeByName(s, b) IN
+                         CASE ty.k \in {"simple", "rename"} -> BaseKindOf(s, ty.base.base)
+                           [] ty.k = "enum" -> "enum" [] ty.k = "select" -> "select" [] ty.k = "aggr" -> "aggr"
 RECURSIVE ValueOfBase(_, _, _, _), ValueOf(_, _, _, _)
 (* value of a named base (simple kind, defined type or entity) in round n; d bounds the recursion through selects *)
 ValueOfBase(s, b, n, d) ==
@@ -63,6 +69,8 @@ ValueOfBase(s, b, n, d) ==
          [] ty.k = "select" ->
               LET m == ty.members[(n % Len(ty.members)) + 1] IN
               IF IsEnt(s, m) THEN ValueOfBase(s, m, n, d)
+              \* an item that is itself a select contributes its own values: no keyword for the select
+              ELSE IF TypeByName(s, m).k = "select" \/ (TypeByName(s, m).k = "rename" /\ BaseKindOf(s, m) = "select") THEN ValueOfBase(s, m, n + 1, d + 1)
               ELSE [k |-> "typed", ty |-> m, v |-> ValueOfBase(s, m, n + 1, d + 1)]
 (* value of a typeref (possibly an aggregate, possibly of aggregates); elements are distinct when UNIQUE is set *)
 ValueOf(s, t, n, d) ==
@@ -87,18 +95,14 @@ Pop(s, n) == [i \in 1..Cardinality(Instantiable(s)) |->
 
 (* ---- single violations of a conforming population (C03 on generated schemas) ---- *)
 (* what kind of value a parameter of type t takes *)
-RECURSIVE BaseKindOf(_, _)
-BaseKindOf(s, b) == IF b \in Simple THEN b
-                    ELSE IF IsEnt(s, b) THEN "entity"
-                    ELSE LET ty == TypeByName(s, b) IN
-                         CASE ty.k \in {"simple", "rename"} -> BaseKindOf(s, ty.base.base)
-                           [] ty.k = "enum" -> "enum" [] ty.k = "select" -> "select" [] ty.k = "aggr" -> "aggr"
 KindOfRef(s, t) == IF t.agg # "none" THEN "aggr" ELSE BaseKindOf(s, t.base)
 AttrAt(s, e, j) == AttrDecl(s, AttrOrder(s, e)[j])
 (* a literal of a kind that is clearly wrong for a parameter of kind kd *)
 WrongLit(kd) == IF kd \in {"STRING", "BINARY"} THEN [k |-> "tok", t |-> "7"] ELSE [k |-> "tok", t |-> "'x'"]
 FaultClasses == {"few", "many", "wrongkind", "unknown_kw", "abstract_kw", "bad_enum", "star_not_derived", "missing_aggr",
                  "dangling_ref", "wrongtype_ref", "select_outside", "dup_id", "unterminated_inst", "unterminated_str",
+                 \* a literal of the wrong kind inside a typed SELECT value (the select may be reached through another select)
+                 "typed_wrongkind",
                  \* the same violations in an element of an aggregate (the element readers are separate code)
                  "elem_dangling_ref", "elem_wrongtype_ref", "elem_wrongkind", "elem_bad_enum"}
 ElemApplicable(s, pop, cl, a, v) ==
@@ -124,6 +128,7 @@ Applicable(s, pop, cl, i, j) ==
                 [] cl = "dangling_ref" -> kd = "entity"
                 [] cl = "wrongtype_ref" -> kd = "entity" /\ \E q \in 1..Len(pop) : ~IsA(s, pop[q].ent, a.ty.base)
                 [] cl = "select_outside" -> kd = "select"
+                [] cl = "typed_wrongkind" -> kd = "select" /\ x.params[j].k = "typed" /\ BaseKindOf(s, x.params[j].ty) \in (Simple \ {"NUMBER"}) \cup {"enum"}
                 [] cl = "unterminated_str" -> kd = "STRING"
                 [] cl \in {"elem_dangling_ref", "elem_wrongtype_ref", "elem_wrongkind", "elem_bad_enum"} -> ElemApplicable(s, pop, cl, a, x.params[j])
                 [] OTHER -> FALSE
@@ -144,6 +149,7 @@ Faulty(s, pop, cl, i, j, n) ==
        [] cl = "dangling_ref" -> Set([k |-> "ref", id |-> 999])
        [] cl = "wrongtype_ref" -> LET q == CHOOSE q \in 1..Len(pop) : ~IsA(s, pop[q].ent, AttrAt(s, x.ent, j).ty.base) IN Set([k |-> "ref", id |-> pop[q].id])
        [] cl = "select_outside" -> Set([k |-> "typed", ty |-> "nosuch_t", v |-> [k |-> "tok", t |-> "'x'"]])
+       [] cl = "typed_wrongkind" -> Set([x.params[j] EXCEPT !.v = WrongLit(BaseKindOf(s, x.params[j].ty))])
        [] cl \in {"elem_dangling_ref", "elem_wrongtype_ref", "elem_wrongkind", "elem_bad_enum"} ->
             LET a == AttrAt(s, x.ent, j)
                 last == Len(x.params[j].items)
